@@ -127,17 +127,6 @@ theorem iterF_closed {n : Nat} {F : List Name → List Name} (r : Round n F) {k 
 
 /-! ### the two iterations of the monitor -/
 
-def boundedB (inp : RunInput) (n : Nat) : Bool :=
-  inp.sel.all (· < n) && (List.range n).all fun t =>
-    (inp.taskDep t).all (· < n) && (inp.calcDep t).all (· < n) && (inp.setup t).all (· < n) &&
-    (inp.calcRes t).tasks.all (· < n) && (inp.calcRes t).files.all (· < n) && (inp.calcRes t).calcs.all (· < n)
-
-/-- every task name that occurs in the run input is below `n` (what the harness passes as `nTasks`: the number of
-    tasks); decidable -/
-def Bounded (inp : RunInput) (n : Nat) : Prop := boundedB inp n = true
-
-instance (inp : RunInput) (n : Nat) : Decidable (Bounded inp n) := by unfold Bounded; infer_instance
-
 structure BoundedP (inp : RunInput) (n : Nat) : Prop where
   sel : ∀ t ∈ inp.sel, t < n
   td : ∀ t, t < n → ∀ d ∈ inp.taskDep t, d < n
